@@ -67,7 +67,12 @@ impl<'i, 't, 'a> StepParser<'i, 't, 'a> {
             if let Token::Comment(_) = token {
                 continue;
             }
-            return Ok(StepToken { token, position });
+            let end = Some(self.position());
+            return Ok(StepToken {
+                token,
+                position,
+                end,
+            });
         }
     }
 
@@ -84,6 +89,8 @@ impl<'i, 't, 'a> StepParser<'i, 't, 'a> {
 pub(crate) struct StepToken<'i> {
     pub(crate) token: Token<'i>,
     pub(crate) position: error::Position,
+    /// Where the token ends in the source (`None` for generated tokens).
+    pub(crate) end: Option<error::Position>,
 }
 
 impl<'i> Deref for StepToken<'i> {
@@ -96,11 +103,19 @@ impl<'i> Deref for StepToken<'i> {
 
 impl<'i> StepToken<'i> {
     pub(crate) fn wrap(token: Token<'i>, position: error::Position) -> Self {
-        Self { token, position }
+        Self {
+            token,
+            position,
+            end: None,
+        }
     }
 
     pub(crate) fn wrap_at(token: Token<'i>, other: &Self) -> Self {
         let position = other.position.clone();
-        Self { token, position }
+        Self {
+            token,
+            position,
+            end: None,
+        }
     }
 }
